@@ -22,6 +22,22 @@ partial def decV (floats : IO.Ref (List (Nat × List Char)) → Unit := fun _ =>
       | _ => none) kvs))
   | _ => none
 
+/-- an integer handed to the writers as a Go value of kind `k` (other than int64): for the property it is the
+integer; for the writer model it is the integer when `writeValue` has an arm for the kind, else the default arm's
+quoted text (D97) -/
+partial def relabel (armed : String → Bool) : T → T
+  | .node "intk" [k, n] =>
+    (match k.asStr, n.asInt with
+     | some k, some i => if armed k then .node "int" [n] else .node "str" [T.ofChars (intText i)]
+     | _, _ => .node "bad" [])
+  | .node nm xs => .node nm (xs.map (relabel armed))
+  | t => t
+
+partial def otherKinds : T → List String
+  | .node "intk" [k, _] => (match k.asStr with | some k => [k] | none => [])
+  | .node _ xs => xs.flatMap otherKinds
+  | _ => []
+
 partial def floatTexts : T → List (Nat × List Char)
   | .node "float" [b, t] => (match b.asNat, t.asChars with | some b, some t => [(b, t)] | _, _ => [])
   | .node _ xs => xs.flatMap floatTexts
@@ -92,14 +108,14 @@ partial def keysOk (tbl : Tbl) (sdl : Bool) : V → Bool
 def handle (tb : Tables) (c impl : T) : String :=
   match c with
   | .node "c18" [v, indent, sdl] =>
-    match decV (fun _ => ()) v, indent.asInt, sdl.asBool with
-    | some val, some indent, some sdl =>
+    match decV (fun _ => ()) (relabel (fun _ => true) v), decV (fun _ => ()) (relabel (fun k => tb.writerIntKinds.contains k) v), indent.asInt, sdl.asBool with
+    | some val, some valW, some indent, some sdl =>
       let tbl := tblOf tb
       let fl := floatTexts v ++ floatTexts impl
       let ft : FloatText Nat :=
         { fmt := fun b => match fl.find? (fun p => p.1 == b) with | some p => p.2 | none => "?".toList
           parse := fun t => (fl.find? (fun p => p.2 == t)).map (·.1) }
-      let text := writeValue tbl ft sdl 0 indent val
+      let text := writeValue tbl ft sdl 0 indent valW
       let implText : Option (List Char) := match impl with | .node "obs" (t :: _) => t.asChars | _ => none
       let readBack : T := match implText with
         | some t => (match readValue tbl ft (t.length + 2) t with
@@ -115,8 +131,9 @@ def handle (tb : Tables) (c impl : T) : String :=
       let specOk : Bool := match impl with
         | .node "obs" [_, rb, j] => wmatch want rb && (sdl || (j == T.ofBool true && jsonModel))
         | _ => false
-      verdictAttr impl cur specOk (if keysOk tbl sdl val then [] else [if sdl then "D22" else "D22-json"])
-    | _, _, _ => "bad-op"
+      let unarmed := (otherKinds v).any (fun k => !tb.writerIntKinds.contains k)
+      verdictAttr impl cur specOk ((if keysOk tbl sdl val then [] else [if sdl then "D22" else "D22-json"]) ++ (if unarmed then ["D97"] else []))
+    | _, _, _, _ => "bad-op"
   | .node "c18raw" [_] =>
     -- bytes that are not valid UTF-8: outside the character-level model; only the JSON clause is judged
     (match impl with
@@ -124,6 +141,7 @@ def handle (tb : Tables) (c impl : T) : String :=
      | _ => "bad-op")
   | _ => "bad-op"
 
-def flags (tb : Tables) : List (String × Bool) := [("D22", true), ("D22-json", !(tblOf tb).jsonKeysEscaped)]
+def flags (tb : Tables) : List (String × Bool) := [("D22", true), ("D22-json", !(tblOf tb).jsonKeysEscaped),
+  ("D97", ["int", "int8", "int16", "int32", "int64", "uint", "uint8", "uint16", "uint32", "uint64"].any (fun k => !tb.writerIntKinds.contains k))]
 
 end Ggql.Driver.C18
